@@ -209,6 +209,14 @@ def check_survival(rng, res, root, label):
       if names:
         nm = rng.choice(names)
         fdl.add_tag(b, nm, rng.choice(TAGS))
+        if rng.random() < 0.6:
+          # several tag operations on ONE argument: two or three tags added, and / or all its tags removed
+          for t in rng.sample(TAGS, rng.randint(2, min(3, len(TAGS)))):
+            fdl.add_tag(b, nm, t)
+          for b2 in bs:
+            for k2, ts in list(b2.__argument_tags__.items()):
+              if len(ts) >= 2 and isinstance(k2, str) and (b2 is not b or k2 != nm) and rng.random() < 0.5:
+                fdl.clear_tags(b2, k2)
         try:
           old = copy.deepcopy(root)
           diffing.apply_diff(diffing.build_diff(old, new), old)
